@@ -301,7 +301,8 @@ def run(ctx):
     terms, meta, oracle_bad, stable_terms, stable_meta = [], [], [], [], []
     for (kind, ks, args, inp), (st, out, err) in zip(cases, obs):
         ctx.count((kind, args, inp))
-        base = {"argv": ["mlr"] + c11.IOFLAGS + args, "input": c11.show(inp), "observed": c11.show(out)}
+        base = {"argv": ["mlr"] + c11.IOFLAGS + args, "input": c11.show(inp), "observed": c11.show(out),
+                "case": {"kind": kind, "ks": [[k.decode("latin1"), c] for k, c in ks]}}
         if st != 0:
             ctx.violation(dict(base, broken="mlr-failed", status=st, stderr=err.decode("latin1")[-500:]))
             continue
@@ -379,7 +380,7 @@ def fixed_probes(ctx, oracle_bad):
         ctx.count(("natural-direction", args))
         got = [dict(r).get(b"t") for r in out]
         if st != 0 or got != want:
-            oracle_bad.append({"argv": ["mlr"] + c11.IOFLAGS + args, "input": c11.show(recs), "observed": c11.show(out), "expected": [x.decode() for x in want],
+            oracle_bad.append({"argv": ["mlr"] + c11.IOFLAGS + args, "input": c11.show(recs), "observed": c11.show(out), "expected": ["t:" + x.decode() for x in want],
                                "law": "natural sort direction of the flag", "class": "other"})
     # numeric collation: numbers by value, then empties, then strings; reversed by -nr
     recs = [[(b"x", v)] for v in (b"abc", b"", b"10", b"0x9", b"-1.5", b"Abc")]
@@ -389,7 +390,7 @@ def fixed_probes(ctx, oracle_bad):
         ctx.count(("numeric-collation", args))
         got = [dict(r).get(b"x") for r in out]
         if st != 0 or got != w:
-            oracle_bad.append({"argv": ["mlr"] + c11.IOFLAGS + args, "input": c11.show(recs), "observed": c11.show(out), "expected": [x.decode() for x in w],
+            oracle_bad.append({"argv": ["mlr"] + c11.IOFLAGS + args, "input": c11.show(recs), "observed": c11.show(out), "expected": ["x:" + x.decode() for x in w],
                                "law": "numeric order: numbers by value before empties and strings (reversed for -nr)", "class": "other"})
     # fixed witnesses of the recorded finding classes (reported under their class while they reproduce)
     def probe(args, lines, want, law, cls):
@@ -413,7 +414,7 @@ def fixed_probes(ctx, oracle_bad):
         nums = sorted([k for k in keys if k.isdigit()], key=int)
         want = nums + sorted(k for k in keys if not k.isdigit())
         if st != 0 or got != want:
-            oracle_bad.append({"argv": ["mlr"] + c11.IOFLAGS + ["put", "$* = sort($*)"], "input": c11.show(rec), "observed": c11.show(out), "expected": [x.decode() for x in want],
+            oracle_bad.append({"argv": ["mlr"] + c11.IOFLAGS + ["put", "$* = sort($*)"], "input": c11.show(rec), "observed": c11.show(out), "expected": [";".join(x.decode() + ":v" for x in want)],
                                "law": "DSL sort of map keys obeys the same collation: numbers by value before strings",
                                "class": "dsl-sort-map-keys-number-vs-string-compared-lexically"})
 
@@ -430,5 +431,17 @@ def replay(ctx, path):
     got = c11.show(c11.dec(out))
     print("replay: argv=%s\n input=%s\n observed=%s\n previously=%s" % (argv, obj["input"], got, obj.get("observed")))
     ctx.count(("replay", argv, obj["input"]))
-    if got == obj.get("observed"):
+    if st != 0:
+        ctx.violation(dict(obj, replayed=True, status=st))
+    elif "case" in obj and obj["case"]["kind"] in ("sort", "groups"):
+        ks = [(k.encode("latin1"), c) for k, c in obj["case"]["ks"]]
+        o = c11.dec(out)
+        v = oracle(ks, inp, o)
+        sv = stable_oracle(ks, inp, o)
+        if v or (sv and obj.get("class", "").startswith("sort-not-stable")):
+            ctx.violation(dict(obj, replayed=True, observed=got, law=(v[0] if v else obj.get("law"))))
+    elif "expected" in obj:
+        if got != obj["expected"]:
+            ctx.violation(dict(obj, replayed=True, observed=got))
+    elif got == obj.get("observed"):
         ctx.violation(dict(obj, replayed=True))
